@@ -440,9 +440,9 @@ Abad == Node(TNS, "a", "", "", <<>>, <<TXT>>)           \* declared element with
 Ox == Node("o", "x", "", "", <<>>, <<>>)               \* element of a namespace no schema is known for
 Nx == Node("", "x", "", "", <<>>, <<>>)                \* unqualified element
 Ux == E0("u")                                          \* undeclared element of the target namespace
-Len5 == IF MaxLen < 5 THEN MaxLen ELSE 5
-Len4 == IF MaxLen < 4 THEN MaxLen ELSE 4
-Len3 == IF MaxLen < 3 THEN MaxLen ELSE 3
+Len5 == MaxLen + 1          \* quick: MaxLen = 4
+Len4 == MaxLen
+Len3 == MaxLen - 1
 
 Case(id, par, S, hdrs, alpha, len) == [id |-> id, par |-> par, schema |-> S, hdrs |-> hdrs, alpha |-> alpha, len |-> len,
                                        load |-> <<"ok", "ok">>]      \* schema load result without / with full checking
@@ -468,9 +468,9 @@ S4Parts == <<
   Grp("seq", 1, 1, <<El("a", 0, 0), El("b", 2, INF), El("c", 3, INF)>>)>>
 S4 == {Case("S4", <<k>>, SchemaP(S4Parts[k], "elemOnly"), {H0}, {E0("a"), E0("b"), E0("c"), E0("d")}, Len5) : k \in 1..Len(S4Parts)}
 S5 == {Case("S5", <<ns, pc, r>>, SchemaP(Grp("seq", 1, 1, <<El("a", 1, 1), Wild(ns, pc, r[1], r[2])>>), "elemOnly"),
-            {H0}, {E0("a"), Abad, Ux, Ox, Nx}, Len4) :
+            {H0}, {E0("a"), Abad, Ux, Ox, Nx}, Len3) :
             ns \in {"##any", "##other", "##targetNamespace", "##local", "##targetNamespace ##local"},
-            pc \in {"strict", "lax", "skip"}, r \in {<<0, 2>>, <<1, INF>>}}
+            pc \in {"strict", "lax", "skip"}, r \in {<<0, 1>>, <<1, 2>>}}
 
 (* S8 xsi:nil *)
 S8Types == <<CT("tR", "elemOnly", Grp("seq", 1, 1, <<El("a", 1, 1)>>)), TE, CT("tO", "elemOnly", El("a", 0, 1)),
@@ -511,7 +511,144 @@ S10 == {Case("S10", <<ty>>,
              {H0}, {E0("a"), TXT, NUM, WS, CMT}, Len3) :
              ty \in {"tE", "tO", "tM", "tS", "tI", "tX", "xs:string", "xs:int"}}
 
-Family == [S1 |-> S1, S2 |-> S2, S3 |-> S3, S4 |-> S4, S5 |-> S5, S8 |-> S8, S9 |-> S9, S10 |-> S10]
+(* S6 substitution groups: head h of type tB; members of the same type, of an extension, of a restriction *)
+S6Types == <<CT("tR", "elemOnly", Grp("seq", 1, 1, <<El("h", 0, 2)>>)), TE,
+             CT("tB", "elemOnly", Grp("seq", 1, 1, <<El("a", 0, 1)>>)),
+             [CT("tD", "elemOnly", Grp("seq", 1, 1, <<El("b", 0, 1)>>)) EXCEPT !.base = "tB", !.deriv = "ext"],
+             [CT("tS", "elemOnly", Grp("seq", 1, 1, <<El("a", 1, 1)>>)) EXCEPT !.base = "tB", !.deriv = "res"]>>
+Mb == Node(TNS, "m2", "", "", <<>>, <<E0("b")>>)
+Hb == Node(TNS, "h", "", "", <<>>, <<E0("b")>>)
+S6 == {Case("S6", <<ha, hb, tb, ma>>,
+            [elems |-> <<ED("r", "tR"), ED("a", "tE"), ED("b", "tE"), ED("c", "tE"),
+                         [ED("h", "tB") EXCEPT !.abstract = ha, !.block = hb],
+                         [ED("m1", "tB") EXCEPT !.subst = "h", !.abstract = ma], [ED("m2", "tD") EXCEPT !.subst = "h"],
+                         [ED("m3", "tS") EXCEPT !.subst = "h"], [ED("m4", "tD") EXCEPT !.subst = "m1"]>>,
+             types |-> [S6Types EXCEPT ![3].block = tb], gattrs |-> <<>>],
+            {H0}, {E0("h"), E0("m1"), E0("m2"), E0("m3"), E0("m4"), E0("c"), Mb, Hb}, 2) :
+            ha \in BOOLEAN, hb \in {{}, {"substitution"}, {"extension"}, {"restriction"}}, tb \in {{}, {"extension"}, {"restriction"}},
+            ma \in BOOLEAN}
+
+(* S7 xsi:type on the root: base tB, extension tX, extension of the extension tY, restriction tS, unrelated tU, abstract tA *)
+S7Types(tbAbs, tbBlock) ==
+  <<[CT("tB", "elemOnly", Grp("seq", 1, 1, <<El("a", 0, 1)>>)) EXCEPT !.abstract = tbAbs, !.block = tbBlock], TE,
+    [CT("tX", "elemOnly", Grp("seq", 1, 1, <<El("b", 0, 1)>>)) EXCEPT !.base = "tB", !.deriv = "ext"],
+    [CT("tY", "elemOnly", Grp("seq", 1, 1, <<El("c", 0, 1)>>)) EXCEPT !.base = "tX", !.deriv = "ext"],
+    [CT("tS", "elemOnly", Grp("seq", 1, 1, <<El("a", 1, 1)>>)) EXCEPT !.base = "tB", !.deriv = "res"],
+    [CT("tZ", "elemOnly", Grp("seq", 1, 1, <<El("a", 1, 1), El("b", 1, 1)>>)) EXCEPT !.base = "tX", !.deriv = "res"],
+    CT("tU", "elemOnly", Grp("seq", 1, 1, <<El("a", 0, 1)>>)),
+    [CT("tA", "elemOnly", Grp("seq", 1, 1, <<El("b", 0, 1)>>)) EXCEPT !.base = "tB", !.deriv = "ext", !.abstract = TRUE]>>
+S7 == {Case("S7", <<rb, ta, tb>>,
+            [elems |-> <<[ED("r", "tB") EXCEPT !.block = rb], ED("a", "tE"), ED("b", "tE"), ED("c", "tE")>>,
+             types |-> S7Types(ta, tb), gattrs |-> <<>>],
+            {<<TNS, "r", x, "", <<>>>> : x \in {"", "tB", "tX", "tY", "tS", "tZ", "tU", "tA", "tQ", "xs:string"}},
+            {E0("a"), E0("b"), E0("c")}, 2) :
+            rb \in {{}, {"extension"}, {"restriction"}, {"extension", "restriction"}}, ta \in BOOLEAN,
+            tb \in {{}, {"extension"}, {"restriction"}}}
+
+(* S14 element value constraints *)
+S14Types == <<TE, CT("tM", "mixed", Grp("seq", 1, 1, <<El("a", 0, 1)>>)), [CT("tC", "simple", Nil) EXCEPT !.stype = "xs:string"],
+              [CT("tI", "simple", Nil) EXCEPT !.stype = "xs:int"]>>
+S14 == {Case("S14", <<ty, vc>>,
+             [elems |-> <<[ED("r", ty) EXCEPT !.vc = vc, !.val = IF ty \in {"xs:int", "tI"} THEN "7" ELSE "x"], ED("a", "tE")>>,
+              types |-> S14Types, gattrs |-> <<>>],
+             {H0}, {TXT, NUM, WS, CMT} \cup (IF ty = "tM" THEN {E0("a")} ELSE {}), 2) :
+             ty \in {"xs:string", "xs:int", "tC", "tI", "tM"}, vc \in {"default", "fixed"}}
+
+(* ---- S13 Unique Particle Attribution (3.8.6 cos-nonambig) ----
+   Leaves carry a tag in their last slot so that two particles with equal content stay distinct.
+   Declarative: LastAttr(S, p, w) = the leaf particles the LAST item of w can be attributed to when w is read as the
+   beginning of some word of L(p); UPA holds iff that is never more than one particle.
+   Operational: the automaton built from the expanded content model never has two different particles able to
+   consume the next child (what DFAContentModel::checkUniqueParticleAttribution looks for state by state). *)
+ElT(n, mn, mx, tag) == <<"elem", mn, mx, n, "ref", <<tag>>>>
+WildT(ns, pc, mn, mx, tag) == <<"any", mn, mx, ns, pc, <<tag>>>>
+RECURSIVE LastAttr(_, _, _), LastTerm(_, _, _), LastSeq(_, _, _), LastRep(_, _, _, _)
+LastTerm(S, p, w) ==        \* w non-empty, read as the beginning of ONE occurrence of the term
+  CASE p[1] \in {"elem", "any"} -> IF Len(w) = 1 /\ LeafMatch(S, p, w[1]) THEN {p} ELSE {}
+    [] p[1] = "seq" -> LastSeq(S, p[6], w)
+    [] p[1] = "choice" -> UNION {LastAttr(S, p[6][k], w) : k \in 1..Len(p[6])}
+    [] p[1] = "all" -> {}
+LastSeq(S, ks, w) ==
+  IF ks = <<>> THEN {}
+  ELSE LastAttr(S, Head(ks), w)
+         \cup UNION {IF InLang(S, Head(ks), SubSeq(w, 1, i)) THEN LastSeq(S, Tail(ks), SubSeq(w, i + 1, Len(w))) ELSE {} : i \in 0..(Len(w) - 1)}
+LastRep(S, p, w, mx) ==
+  IF mx = 0 THEN {}
+  ELSE LastTerm(S, p, w)
+         \cup UNION {IF InTerm(S, p, SubSeq(w, 1, i)) THEN LastRep(S, p, SubSeq(w, i + 1, Len(w)), Dec(mx)) ELSE {} : i \in 1..(Len(w) - 1)}
+LastAttr(S, p, w) == LastRep(S, p, w, p[3])
+WordsUpTo(A, n) == UNION {[1..k -> A] : k \in 1..n}
+UPADecl(S, p, A, n) == \A w \in WordsUpTo(A, n) : Cardinality(LastAttr(S, p, w)) <= 1
+
+RECURSIVE ReachUPA(_, _, _, _)
+ReachUPA(S, e, A, n) ==        \* every automaton state reachable within n children has at most one consumer per child
+  \A c \in A : /\ Cardinality(Range(Cons(S, e, c))) <= 1
+               /\ (n > 1 /\ Deriv(S, e, c)[1] # "none") => ReachUPA(S, Deriv(S, e, c), A, n - 1)
+UPAOp(S, p, A, n) == ReachUPA(S, ContentModel(p), A, n)
+
+S13Parts == <<
+  Grp("seq", 1, 1, <<ElT("a", 0, 1, 1), ElT("a", 1, 1, 2)>>),                       \* (a?, a)
+  Grp("choice", 1, 1, <<ElT("a", 1, 1, 1), ElT("a", 1, 1, 2)>>),                    \* (a | a)
+  Grp("seq", 1, 1, <<ElT("a", 0, INF, 1), ElT("a", 1, 1, 2)>>),                     \* (a*, a)
+  Grp("seq", 1, 1, <<ElT("a", 0, 1, 1), WildT("##any", "lax", 1, 1, 2)>>),          \* (a?, any)
+  Grp("seq", 1, 1, <<WildT("##targetNamespace", "lax", 0, INF, 1), ElT("b", 1, 1, 2)>>),   \* (any{tns}*, b)
+  Grp("seq", 1, 1, <<ElT("a", 2, 3, 1), ElT("a", 1, 1, 2)>>),                       \* (a{2,3}, a)
+  Grp("choice", 1, 1, <<Grp("seq", 1, 1, <<ElT("a", 1, 1, 1), ElT("b", 1, 1, 2)>>), Grp("seq", 1, 1, <<ElT("a", 1, 1, 3), ElT("c", 1, 1, 4)>>)>>),
+  Grp("seq", 1, 1, <<Grp("choice", 0, INF, <<ElT("a", 1, 1, 1), ElT("b", 1, 1, 2)>>), ElT("b", 0, 1, 3)>>),     \* ((a|b)*, b?)
+  \* unambiguous controls
+  Grp("seq", 1, 1, <<ElT("a", 0, 1, 1), ElT("b", 1, 1, 2)>>),
+  Grp("seq", 1, 1, <<ElT("a", 3, 3, 1), ElT("a", 1, 1, 2)>>),                       \* (a{3,3}, a): the counter decides
+  Grp("seq", 1, 1, <<ElT("a", 1, 1, 1), WildT("##other", "lax", 0, 2, 2)>>),
+  Grp("seq", 1, 1, <<ElT("a", 0, 2, 1), ElT("b", 0, INF, 2), WildT("##local", "skip", 0, 1, 3)>>),
+  Grp("choice", 1, 1, <<Grp("seq", 1, 1, <<ElT("a", 1, 1, 1), ElT("b", 1, 1, 2)>>), Grp("seq", 1, 1, <<ElT("c", 1, 1, 3), ElT("a", 1, 1, 4)>>)>>)
+>>
+S13Alpha == {E0("a"), E0("b"), E0("c"), Nx}
+(* a schema whose only question is whether it loads: UPA violations are reported iff full checking is on *)
+Case13(k) == [Case("S13", <<k>>, SchemaP(S13Parts[k], "elemOnly"), {}, {}, 0) EXCEPT
+                 !.load = <<"ok", IF UPAOp(SchemaP(S13Parts[k], "elemOnly"), S13Parts[k], S13Alpha, 4) THEN "ok" ELSE "error">>]
+S13 == {Case13(k) : k \in 1..Len(S13Parts)}
+
+(* ---- S11 derivation: extension appends particles and attribute uses, restriction narrows them (3.4.2, 3.4.6) ----
+   RestrictOK is Particle Valid (Restriction) 3.9.6 for the shapes of this template: sequence:sequence by rcase-Recurse
+   (order preserving, skipped base particles emptiable), element:element by rcase-NameAndTypeOK (occurrence range
+   containment). Its violation is a schema error reported under full checking only. *)
+RECURSIVE Recurse(_, _)
+Recurse(rk, bk) ==
+  IF rk = <<>> THEN \A i \in 1..Len(bk) : bk[i][2] = 0
+  ELSE IF bk = <<>> THEN FALSE
+  ELSE \/ /\ Head(rk)[4] = Head(bk)[4] /\ Head(rk)[2] >= Head(bk)[2] /\ Head(rk)[3] <= Head(bk)[3]
+          /\ Recurse(Tail(rk), Tail(bk))
+       \/ /\ Head(bk)[2] = 0 /\ Recurse(rk, Tail(bk))
+RestrictOK(r, b) == r[1] = "seq" /\ b[1] = "seq" /\ r[2] = 1 /\ r[3] = 1 /\ b[2] = 1 /\ b[3] = 1 /\ Recurse(r[6], b[6])
+
+S11Base == Grp("seq", 1, 1, <<El("a", 0, 1), El("b", 1, 2)>>)
+S11Res == <<Grp("seq", 1, 1, <<El("b", 1, 1)>>),                         \* a dropped, b narrowed
+            Grp("seq", 1, 1, <<El("a", 1, 1), El("b", 2, 2)>>),          \* a required
+            Grp("seq", 1, 1, <<El("a", 0, 1), El("b", 1, 3)>>),          \* b widened: not a restriction
+            Grp("seq", 1, 1, <<El("a", 0, 2), El("b", 1, 2)>>),          \* a widened: not a restriction
+            Grp("seq", 1, 1, <<El("b", 1, 2), El("a", 0, 1)>>),          \* order changed: not a restriction
+            Grp("seq", 1, 1, <<El("a", 0, 1)>>)>>                        \* required b dropped: not a restriction
+S11Types(k, pu) ==
+  <<[CT("tB", "elemOnly", S11Base) EXCEPT !.attrs = <<AU("p", "optional")>>], TE,
+    [CT("tX", "elemOnly", Grp("seq", 1, 1, <<El("c", 0, 1)>>)) EXCEPT !.base = "tB", !.deriv = "ext", !.attrs = <<AU("q", "required")>>],
+    [CT("tY", "elemOnly", Grp("seq", 1, 1, <<El("a", 1, 1)>>)) EXCEPT !.base = "tX", !.deriv = "ext"],
+    [CT("tS", "elemOnly", S11Res[k]) EXCEPT !.base = "tB", !.deriv = "res", !.attrs = <<AU("p", pu)>>]>>
+S11Schema(ty, k, pu) == [elems |-> <<ED("r", ty), ED("a", "tE"), ED("b", "tE"), ED("c", "tE")>>, types |-> S11Types(k, pu), gattrs |-> <<>>]
+S11Hdrs == {<<TNS, "r", "", "", at>> : at \in {<<>>, <<<<"", "p", "x">>>>, <<<<"", "q", "x">>>>, <<<<"", "p", "x">>, <<"", "q", "x">>>>}}
+S11 == {IF RestrictOK(S11Res[k], S11Base)
+        THEN Case("S11", <<ty, k, pu>>, S11Schema(ty, k, pu), S11Hdrs, {E0("a"), E0("b"), E0("c")}, Len4)
+        ELSE [Case("S11", <<ty, k, pu>>, S11Schema(ty, k, pu), {}, {}, 0) EXCEPT !.load = <<"ok", "error">>] :
+        ty \in {"tX", "tY", "tS"}, k \in 1..Len(S11Res), pu \in {"optional", "required", "prohibited"}}
+(* what restriction is for: every instance of the restricted model is an instance of the base model *)
+RECURSIVE WordsLE(_, _)
+WordsLE(A, n) == IF n = 0 THEN {<<>>} ELSE WordsLE(A, n - 1) \cup {Append(w, c) : w \in WordsLE(A, n - 1), c \in A}
+RestrictSound == \A k \in 1..Len(S11Res) :
+                    RestrictOK(S11Res[k], S11Base) =>
+                       \A w \in WordsLE({E0("a"), E0("b"), E0("c")}, 4) :
+                          InLang(S11Schema("tS", k, "optional"), S11Res[k], w) => InLang(S11Schema("tS", k, "optional"), S11Base, w)
+ASSUME RestrictSound
+
+Family == [S1 |-> S1, S2 |-> S2, S3 |-> S3, S4 |-> S4, S5 |-> S5, S6 |-> S6, S7 |-> S7, S8 |-> S8, S9 |-> S9, S10 |-> S10, S11 |-> S11, S13 |-> S13, S14 |-> S14]
 Cases == UNION {Family[t] : t \in Templates}
 
 (* ================================================================== state machine over one root element *)
@@ -555,4 +692,7 @@ Agree == verdict # Nil => ((verdict[1] = {}) <=> DocValid(CS.schema, DocOf))
 SameAsFold == verdict # Nil => verdict[1] = DocErrs(CS.schema, DocOf)
 (* Unique Particle Attribution holds for every schema of the family meant to be valid *)
 UPAClean == fr.upa
+(* S13: the automaton reading of UPA agrees with the declarative one (attribution of the last item of every prefix) *)
+UPAAgree == CS.id = "S13" => LET p == S13Parts[CS.par[1]] IN
+                             UPAOp(CS.schema, p, S13Alpha, 4) = UPADecl(CS.schema, p, S13Alpha, 4)
 =============================================================================
